@@ -75,6 +75,16 @@ def check_surjection_target(c, prog, rule):
     c.inst(rule, "surjection_target: Unknown(asset) -> (asset generator of any non-null form, zero tag, zero tweak); Known -> (new_blinded(tag, abf), tag, abf)",
            by_variant == want and len(errs) == 1 and errs[0][0][:1] == (("discr(arg1)", "=0"),) and ("UnExpectedNullAsset" in errs[0][1] or "from_residual(err(%s))" % GEN in errs[0][1]),
            "rows %s" % {str(k): v[:160] for k, v in rows.items()}, F.f.where(), F.f.path)
+    # secrets the caller supplies always become a Known entry (asset and factor as given, zero factor included): an explicit
+    # spent output is a commitment with factor zero, and the prover needs its tag to prove membership
+    for fnp in ("<blind::SurjectionInput as std::convert::From<blind::TxOutSecrets>>::from",):
+        H = Fn(prog, fnp)
+        rr = [(sh(s_[1]), [k for k, cn, a in cx]) for cx, s_ in H.flat if s_[0] == "ret"]
+        c.inst(rule, "SurjectionInput from TxOutSecrets: Known{asset, asset_bf} for every value", rr == [("blind::SurjectionInput::Known{arg1.asset, arg1.asset_bf}", [])],
+               "returns %s" % rr, H.f.where(), fnp)
+    H = Fn(prog, "blind::SurjectionInput::from_txout_secrets")
+    rr = [sh(s_[1]) for cx, s_ in H.flat if s_[0] == "ret"]
+    c.inst(rule, "SurjectionInput::from_txout_secrets = the same conversion", rr in (["arg1"], ["blind::SurjectionInput::Known{arg1.asset, arg1.asset_bf}"]), "returns %s" % rr, H.f.where(), H.f.path)
     G = Fn(prog, "confidential::Asset::into_asset_gen")
     grows = {}
     for cx, s_ in G.flat:
@@ -347,7 +357,11 @@ def run(c, prog, ctx):
     from . import c11 as _c11
     from ..report import Check as _Check
     sub = _Check("C11", c.tier)
-    _c11.run(sub, prog, ctx)
+    _asked = set(prog.asked)
+    try:
+        _c11.run(sub, prog, dict(ctx, no_deps=True))
+    finally:
+        prog.asked = _asked
     n_b = 0
     for (rule, k, okk, detail, where) in sub.instances:
         if rule.startswith("R2.pset") or rule.startswith("R3.flag"):
@@ -366,5 +380,10 @@ def run(c, prog, ctx):
         c.inst("R7.fully-blinded-fields", name, set(need) <= set(written) and {"blind_value_proof", "blind_asset_proof"} <= set(written),
                "is_fully_blinded reads %s; written per blinded output %s" % (need, written), F.f.where(), F.f.path)
     check_surjection_target(c, prog, "R6.surjection-target")
+    # "with the PSET serialized and passed on between them": the published scalars are the one piece of state this flow adds to
+    # a PSET; that the writer's pair (proprietary subtype 0, 32-byte key data, empty value) is what the reader accepts is C07's rule
+    if not ctx.get("no_deps"):
+        from . import c07 as _c07
+        c.borrow(_c07, "C07", prog, ctx, lambda rule, k: rule in ("R1.global-scalar-writer", "R1.global-scalar-reader"), "R8.scalars-survive-hop", 2)
     c.floor("R7.fully-blinded-fields", 2)
     c.floor("R4.last", 3)
